@@ -108,6 +108,10 @@ def prop_scope(alg):
         for n in (1, 2):
             for b in boxes(2 * n, 0, 2):
                 yield [], list(b)
+        for b in boxes(3, 0, 2):  # odd arity: the last variable is ignored (the shipped Schur model does this)
+            yield [], list(b)
+        for b in boxes(5, 0, 1):
+            yield [], list(b)
         for b in boxes(6, 0, 1):
             yield [], list(b)
     elif alg in ("no_sub_cycle", "scc"):
@@ -255,7 +259,7 @@ def prop_random(alg, rng):
         return [x for r in rows for x in r], rbox(rng, n, -2, 3, 4)
     if alg == "lexicographic_leq":
         n = rng.randint(1, 5)
-        return [], rbox(rng, 2 * n, -1, 3, 2)
+        return [], rbox(rng, 2 * n + (1 if rng.random() < 0.25 else 0), -1, 3, 2)
     if alg in ("no_sub_cycle", "scc"):
         n = rng.randint(1, 7)
         if rng.random() < 0.5:
